@@ -109,6 +109,34 @@ func (g *gen) call(x *ssa.Call, st State, reach string) string {
 	if mc, ok := c.Value.(*ssa.MakeClosure); ok {
 		_ = mc
 	}
+	// callee without contract whose body is loaded: havoc exactly the heap components it (transitively)
+	// writes, as found by a dry symbolic run — a write-set summary
+	if callee, ok := c.Value.(*ssa.Function); ok && len(callee.Blocks) > 0 && callee.Pkg != nil && g.prog.isLoaded(callee) {
+		g.ctx.note("callee summarised by its write set: " + name)
+		written := map[string]bool{}
+		for _, w := range g.prog.dryWrittenFor(callee) {
+			for comp := range w {
+				written[comp] = true
+			}
+		}
+		for _, comp := range sortedKeys(written) {
+			if !g.importComp(comp) {
+				continue
+			}
+			if comp == "alloctop" {
+				top := g.stGet(st, "alloctop")
+				n := g.ctx.fresh("alloctop", "Int")
+				g.ctx.assume("(>= " + n + " " + top + ")")
+				g.stSet(st, "alloctop", n)
+				continue
+			}
+			g.havocComp(st, comp)
+		}
+		if x.Type() != nil && !isEmptyTuple(x.Type()) {
+			g.vals[x] = g.havocVal(x.Name(), x.Type(), st, reach)
+		}
+		return reach
+	}
 	// unknown callee: result havoc, pointees of pointer arguments havoc, everything else framed
 	g.ctx.note("unknown call (result havoc, frame assumed): " + name)
 	g.ctx.assumed["external call assumed not to touch modelled heap except through pointer arguments: "+name] = true
